@@ -243,6 +243,9 @@ func main() {
 	sc := bufio.NewScanner(os.Stdin)
 	sc.Buffer(make([]byte, 1<<20), 1<<24)
 	ctx := context.Background()
+	// the bytes of the previous program's code, as returned by MarshalCode, and a private copy taken at once: what
+	// MarshalCode returned belongs to the caller and must not change when other code is marshalled later
+	var prevM, prevCopy []byte
 	for sc.Scan() {
 		b, _ := hex.DecodeString(sc.Text())
 		func() {
@@ -262,6 +265,7 @@ func main() {
 				return
 			}
 			m1, err1 := compiler.MarshalCode(code)
+			m1c := append([]byte{}, m1...)
 			m2, err2 := compiler.MarshalCode(code)
 			if err1 != nil || err2 != nil {
 				fmt.Fprintf(w, "RT marshal=ERR:%v\n", err1)
@@ -303,8 +307,18 @@ func main() {
 			if code2 != nil {
 				relLink, _ = linkage(code2)
 			}
-			fmt.Fprintf(w, "RT det=%d stable=%d unmarshal=%s same_dump=%d\t%s\t%s\t%s\t%s\t%s\t%s\n", det, stable, um, same, orig, reloaded,
-				defs(m1), origNamed, origLink, relLink)
+			held := 1
+			if !bytes.Equal(m1, m1c) || (prevM != nil && !bytes.Equal(prevM, prevCopy)) {
+				held = 0
+			}
+			if prevM != nil && held == 1 {
+				if _, err := compiler.UnmarshalCode(prevM); err != nil {
+					held = 0
+				}
+			}
+			prevM, prevCopy = m1, m1c
+			fmt.Fprintf(w, "RT det=%d stable=%d unmarshal=%s same_dump=%d held=%d\t%s\t%s\t%s\t%s\t%s\t%s\n", det, stable, um, same, held, orig, reloaded,
+				defs(m1c), origNamed, origLink, relLink)
 		}()
 	}
 }
